@@ -74,16 +74,19 @@ Mangled(e, op, x) ==
     ELSE NameIf(alt[x].hard => ~e.ok, "MalformedAccepted")
          \cup NameIf(e.ok => e.res \notin DecodingsOfSource(op, x), "MangledDecodesToSame")
 
+\* whose signature is it: the (key, curve, message) of the Sign call that made it - for a mangled one, that made its source
 VerifyChecks(e) ==
-    LET pub == e.args[1]  msg == e.args[2]  sig == e.args[3]  yes == e.res = "true" IN
-    IF IsAlt(sig)
-    THEN (IF alt[sig].how = "highS" THEN NameIf(yes, "drift:HighSTwinRefused") ELSE NameIf(~yes, "AlteredSignatureAccepted"))
-    ELSE IF MadeBy("Sign", sig)
-    THEN LET a == ArgsOf("Sign", sig) IN       \* <<priv, curve, msg>>
-         IF Known("PubOf", <<a[1], a[2]>>)
-         THEN LET own == Val("PubOf", <<a[1], a[2]>>).res = pub /\ a[3] = msg IN
-              NameIf(own => yes, "OwnSignatureRefused") \cup NameIf(yes => own, "ForeignSignatureAccepted")
-         ELSE {}
+    LET pub == e.args[1]  msg == e.args[2]  sig == e.args[3]  yes == e.res = "true"
+        src == IF IsAlt(sig) THEN alt[sig].src ELSE sig
+    IN
+    IF MadeBy("Sign", src) /\ Known("PubOf", <<ArgsOf("Sign", src)[1], ArgsOf("Sign", src)[2]>>)
+    THEN LET a == ArgsOf("Sign", src)       \* <<priv, curve, msg>>
+             own == Val("PubOf", <<a[1], a[2]>>).res = pub /\ a[3] = msg
+         IN
+         IF ~IsAlt(sig) THEN NameIf(own => yes, "OwnSignatureRefused") \cup NameIf(yes => own, "ForeignSignatureAccepted")
+         ELSE IF alt[sig].how = "highS" THEN NameIf(own => yes, "drift:HighSTwinRefused") \cup NameIf(yes => own, "ForeignSignatureAccepted")
+         ELSE NameIf(~yes, "AlteredSignatureAccepted")
+    ELSE IF IsAlt(sig) /\ alt[sig].how # "highS" THEN NameIf(~yes, "AlteredSignatureAccepted")
     ELSE {}
 
 CallChecks(e) ==
